@@ -621,10 +621,31 @@ class Ledger:
                 continue
             if tgt == t["otherwise"] and not vals:
                 out.append((cond, ("not", [v for v, x in t["targets"]])))
+                truth = True if [v for v, x in t["targets"]] == [0] else None
             elif len(vals) == 1 and tgt != t["otherwise"]:
                 out.append((cond, vals[0]))
+                truth = (vals[0] != 0) if vals[0] in (0, 1) else None
             elif vals:
                 out.append((cond, ("in", vals)))
+                truth = None
+            else:
+                truth = None
+            # `(a..=b).contains(&x)` / `(a..b).contains(&x)` taken as true is the pair of comparisons it stands for
+            if truth is True and cond[0] == "call" and re.search(r"ops::range::Range(Inclusive)?<.*>::contains$|range::Range(Inclusive)?::<.*>::contains$", str(cond[1])) and len(cond[2]) == 2:
+                rng, x = cond[2]
+                while rng[0] in ("ref", "deref"):
+                    rng = rng[1]
+                while x[0] in ("ref", "deref"):
+                    x = x[1]
+                lo = hi = None
+                incl = "RangeInclusive" in str(cond[1])
+                if rng[0] == "agg" and len(rng[2]) >= 2:
+                    lo, hi = rng[2][0], rng[2][1]
+                elif rng[0] == "call" and str(rng[1]).endswith("RangeInclusive::<Idx>::new") and len(rng[2]) == 2:
+                    lo, hi = rng[2]
+                if lo is not None:
+                    out.append((("bin", "Ge", x, lo), 1))
+                    out.append((("bin", "Le" if incl else "Lt", x, hi), 1))
         return out
 
     def _stable_between(self, fn, guard_bb, site_bb, cond):
